@@ -42,11 +42,17 @@ CadenceOK(r) ==
 (* at the moment the caller gets control back nothing is left to do: no task, no file job, file = registry *)
 ExitInstantOK(r) ==
     \A i \in 1..Len(E(r)) :
-        E(r)[i].exit_instant => (E(r)[i].alive = 0 /\ E(r)[i].pending = 0 /\ (Sc(r).connect_fail \/ E(r)[i].disk = E(r)[i].reg))
+        E(r)[i].exit_instant => (E(r)[i].alive = 0 /\ E(r)[i].pending = 0
+                                 /\ (Sc(r).connect_fail \/ Sc(r).connect_cancel \/ E(r)[i].disk = E(r)[i].reg))
 
 Verdict(r) ==
     LET z == Last(r) IN
     IF z.kind = "stuck" THEN "stuck"
+    ELSE IF Sc(r).connect_cancel THEN
+        \* entering the context was abandoned (caller cancelled while connect was pending)
+        (IF z.kind # "Cancelled" THEN "cancellation-not-propagated"
+         ELSE IF z.alive # 0 \/ ~ExitInstantOK(r) THEN "task-left-after-cancelled-connect"
+         ELSE "ok")
     ELSE IF Sc(r).connect_fail THEN
         (IF z.kind # "Transport" THEN "connect-error-not-propagated"
          ELSE IF z.alive # 0 \/ ~ExitInstantOK(r) THEN "task-left-after-failed-connect"
